@@ -99,6 +99,12 @@ def first_event(pins, events, kinds=("hazard", "raise", "may_raise", "none_arith
         c = e.data.get("cond")
         if isinstance(c, Term):
             conds.append(c)
+        dom = e.data.get("dom")
+        if dom is not None:
+            if any(s_ in pins and pins[s_] not in allowed for s_, allowed in dom.items()):
+                continue
+            if any(not f.table.get(tuple(pins.get(x) for x in f.slots), True) for f in e.data.get("constraints", ())):
+                continue
         try:
             if holds(pins, conds):
                 return e
